@@ -545,6 +545,18 @@ pub fn preprocess_str<T: AsRef<Path>, U: AsRef<Path>, V: BuildHasher>(
                 let range = Range::new(locate.offset, locate.offset + locate.len);
                 ret.push(locate.str(&s), Some((path.as_ref(), range)));
             }
+            NodeEvent::Enter(RefNode::Comment(x)) => {
+                // A stripped comment still separates the tokens around it:
+                // a one-line comment leaves its newline, a block comment a blank.
+                let locate: Locate = x.try_into().unwrap();
+                if locate.str(&s).ends_with('\n') {
+                    let end = locate.offset + locate.len;
+                    ret.push("\n", Some((path.as_ref(), Range::new(end - 1, end))));
+                } else {
+                    let range = Range::new(locate.offset, locate.offset + 1);
+                    ret.push(" ", Some((path.as_ref(), range)));
+                }
+            }
             NodeEvent::Enter(RefNode::IfndefDirective(x)) => {
                 let (_, ref keyword, ref ifid, ref ifbody, ref elsif, ref elsebody, _, _) = x.nodes;
                 skip_nodes.push(keyword.into());
